@@ -239,6 +239,32 @@ fn feed_chunks(chunks: &[&[u8]]) -> (Vec<u8>, Vec<u8>, bool) {
     }
     (out, tail, true)
 }
+// C01 / C02: a request larger than the internal buffers (8 KiB BufReader, and well beyond: 1 MiB, 3 MiB) with two more requests pipelined behind it: all three are answered,
+// in order, nothing is left over -- whatever the read segmentation
+fn search_large(obs: &[&str]) {
+    let mut found = None;
+    let mut explored = 0;
+    for size in [8191usize, 8192, 8193, 16384, 70_000, (1 << 20) - 1, (1 << 20) + 5, 3 << 20] {
+        for seg in [usize::MAX, 8192, 4096, 65536] {
+            explored += 1;
+            let mut input = Vec::new();
+            input.extend_from_slice(b"{\"method\":\"org.varlink.service.GetInfo\",\"parameters\":{\"pad\":\"");
+            input.extend(std::iter::repeat(b'x').take(size));
+            input.extend_from_slice(b"\"}}\0");
+            input.extend_from_slice(b"{\"method\":\"org.example.t.Ok\"}\0{\"method\":\"org.varlink.service.GetInfo\"}\0");
+            let (r, out, left) = run_handle(&input, if seg == usize::MAX { input.len() } else { seg });
+            let (replies, rest) = split_replies(&out);
+            let shapes: Vec<String> = replies.iter().map(shape).collect();
+            let ok = matches!(&r, Ok((t, None)) if t.is_empty()) && left == 0 && rest.is_empty() && shapes == vec!["info".to_string(), "params".to_string(), "info".to_string()];
+            if !ok && found.is_none() {
+                found = Some(json!({"input": format!("GetInfo with a {}-byte string parameter, then org.example.t.Ok, then GetInfo, in one stream", size), "read_segment": if seg == usize::MAX { 0 } else { seg },
+                    "handle_returned": format!("{:?}", r.as_ref().map(|(t, i)| (t.len(), i.clone()))), "replies": shapes, "expected": ["info", "params", "info"], "bytes_left_unread": left}));
+            }
+        }
+    }
+    for ob in obs { emit(ob, found.is_some(), explored, found.clone().unwrap_or(Value::Null)); }
+}
+
 fn search_cuts(obs: &[&str]) {
     let mut found = None;
     let mut explored = 0;
@@ -397,6 +423,67 @@ fn search_listen_forward(ob: &str) {
     emit(ob, found.is_some(), explored, found.unwrap_or(Value::Null));
 }
 
+// C02.no-wait: the upgrade request and the first upgraded-protocol line arrive in ONE write, and the client then WAITS for the handler's answer without sending more or
+// closing: the bytes already received must be handed to the upgraded handler without first waiting for more traffic on the connection.
+struct ScriptedLine;
+impl Interface for ScriptedLine {
+    fn get_description(&self) -> &'static str { "interface org.example.l\nmethod Up() -> ()\n" }
+    fn get_name(&self) -> &'static str { "org.example.l" }
+    fn call_upgraded(&self, call: &mut Call, bufreader: &mut dyn BufRead) -> varlink::Result<Vec<u8>> {
+        let mut line = Vec::new();
+        let _ = bufreader.read_until(b'\n', &mut line);
+        call.writer.write_all(b"UP:").unwrap();
+        call.writer.write_all(&line).unwrap();
+        let _ = call.writer.flush();
+        Err(varlink::context!(varlink::ErrorKind::ConnectionClosed))
+    }
+    fn call(&self, call: &mut Call) -> varlink::Result<()> { call.to_upgraded(); call.reply_struct(varlink::Reply::parameters(None)) }
+}
+fn search_no_wait(ob: &str) {
+    use std::os::unix::net::UnixStream;
+    let mut found = None;
+    let mut explored = 0;
+    for round in 0..2 {
+        explored += 1;
+        let dir = std::env::temp_dir().join(format!("vx-replay-nw-{}-{}", std::process::id(), round));
+        let _ = std::fs::create_dir_all(&dir);
+        let path = dir.join("sock");
+        let addr = format!("unix:{}", path.display());
+        let stop = Arc::new(std::sync::atomic::AtomicBool::new(false));
+        let stop2 = stop.clone();
+        let a2 = addr.clone();
+        let t = std::thread::spawn(move || {
+            let svc = VarlinkService::new("v", "p", "1", "u", vec![Box::new(ScriptedLine)]);
+            let _ = varlink::listen(svc, &a2, &varlink::ListenConfig { initial_worker_threads: 1, max_worker_threads: 4, idle_timeout: 0, stop_listening: Some(stop2) });
+        });
+        std::thread::sleep(Duration::from_millis(200));
+        let mut observed = Vec::new();
+        let want = b"{}\0UP:hello\n".to_vec();
+        let mut c_keep = None;
+        if let Ok(mut c) = UnixStream::connect(&path) {
+            let mut msg = b"{\"method\":\"org.example.l.Up\",\"upgrade\":true}\0".to_vec();
+            msg.extend_from_slice(b"hello\n");
+            let _ = c.write_all(&msg);
+            // the longer limit of the second round guards against a slow machine: a finding must fail in both
+            let _ = c.set_read_timeout(Some(Duration::from_millis(if round == 0 { 3000 } else { 8000 })));
+            let mut buf = [0u8; 64];
+            while observed.len() < want.len() {
+                match c.read(&mut buf) { Ok(0) | Err(_) => break, Ok(n) => observed.extend_from_slice(&buf[..n]) }
+            }
+            c_keep = Some(c);
+        }
+        drop(c_keep);
+        stop.store(true, Ordering::SeqCst);
+        let _ = t.join();
+        let _ = std::fs::remove_dir_all(&dir);
+        if observed == want { found = None; break; }
+        found = Some(json!({"sent_in_one_write": "<upgrade request>\\0hello\\n", "then": "the client waits for the answer, sending nothing more and keeping the connection open",
+            "client_received": String::from_utf8_lossy(&observed), "expected": String::from_utf8_lossy(&want),
+            "meaning": "the worker waited for more traffic before handing the bytes it already had to the upgraded handler"}));
+    }
+    emit(ob, found.is_some(), explored, found.unwrap_or(Value::Null));
+}
+
 // C17: StringHashSet round trip through text, bytes, value
 fn search_stringset(ob: &str) {
     use varlink::StringHashSet;
@@ -527,6 +614,15 @@ fn search_client(obs: &[&str]) {
         (r#"{"error":"org.varlink.service.MethodNotFound","parameters":{"method":"m"}}"#, "MethodNotFound(\"m\")"),
         (r#"{"error":"org.varlink.service.MethodNotImplemented","parameters":{"method":"m"}}"#, "MethodNotImplemented(\"m\")"),
         (r#"{"error":"org.example.Custom","parameters":{"x":1}}"#, "VarlinkErrorReply"),
+        // the kind is determined by the FULL error name: look-alikes of the four standard errors carry the full reply
+        (r#"{"error":"InvalidParameter","parameters":{"parameter":"foo"}}"#, "VarlinkErrorReply"),
+        (r#"{"error":"MethodNotFound","parameters":{"method":"m"}}"#, "VarlinkErrorReply"),
+        (r#"{"error":"org.varlink.service.org.varlink.service.MethodNotFound","parameters":{"method":"m"}}"#, "VarlinkErrorReply"),
+        (r#"{"error":"org.example.InvalidParameter","parameters":{"parameter":"foo"}}"#, "VarlinkErrorReply"),
+        (r#"{"error":"org.varlink.service.InvalidParameterX","parameters":{"parameter":"foo"}}"#, "VarlinkErrorReply"),
+        (r#"{"error":"xorg.varlink.service.InterfaceNotFound","parameters":{"interface":"a"}}"#, "VarlinkErrorReply"),
+        (r#"{"error":"org.varlink.service.","parameters":{}}"#, "VarlinkErrorReply"),
+        (r#"{"error":"","parameters":{}}"#, "VarlinkErrorReply"),
     ];
     for (reply, want) in &cases {
         explored += 1;
@@ -552,6 +648,14 @@ fn search_client(obs: &[&str]) {
         let mut other = MC::new(conn.clone(), "a.b.Other", json!({}));
         match other.call() { Err(e) if format!("{:?}", e.kind()) == "ConnectionBusy" => {}, x => fail("busy", json!({"observed": format!("call during iteration: {:?}", x.map_err(|e| format!("{:?}", e.kind()))), "expected": "Err(ConnectionBusy)"})) }
         if w.lock().unwrap().len() != before { fail("busy", json!({"observed": "bytes written by a call on a busy connection"})); }
+        // one item consumed, the iteration still outstanding: oneway / more / upgrade from other call objects are refused as well
+        let mut ow2 = MC::new(conn.clone(), "a.b.OneMore", json!({}));
+        match ow2.oneway() { Err(e) if format!("{:?}", e.kind()) == "ConnectionBusy" => {}, x => fail("busy", json!({"observed": format!("oneway() during a `more` iteration: {:?}", x.map_err(|e| format!("{:?}", e.kind()))), "expected": "Err(ConnectionBusy)"})) }
+        let mut mo2 = MC::new(conn.clone(), "a.b.MoreMore", json!({}));
+        match mo2.more() { Err(e) if format!("{:?}", e.kind()) == "ConnectionBusy" => {}, x => fail("busy", json!({"observed": format!("more() during a `more` iteration: {:?}", x.map(|_| "Ok").map_err(|e| format!("{:?}", e.kind()))), "expected": "Err(ConnectionBusy)"})) }
+        let mut up2 = MC::new(conn.clone(), "a.b.UpMore", json!({}));
+        match up2.upgrade() { Err(e) if format!("{:?}", e.kind()) == "ConnectionBusy" => {}, x => fail("busy", json!({"observed": format!("upgrade() during a `more` iteration: {:?}", x.map(|_| "Ok").map_err(|e| format!("{:?}", e.kind()))), "expected": "Err(ConnectionBusy)"})) }
+        if w.lock().unwrap().len() != before { fail("busy", json!({"observed": "bytes written by oneway()/more()/upgrade() on a busy connection", "written": String::from_utf8_lossy(&w.lock().unwrap()[before..]).to_string()})); }
         let items: Vec<String> = (&mut it).map(|r| match r { Ok(v) => v.to_string(), Err(e) => format!("{:?}", e.kind()) }).collect();
         if items != vec![r#"{"n":1}"#, r#"{"n":2}"#, r#"{"n":3}"#] { fail("iter", json!({"observed_items": items, "expected": ["{\"n\":1}", "{\"n\":2}", "{\"n\":3}"]})); }
         let mut again = MC::new(conn.clone(), "a.b.Next", json!({}));
@@ -717,6 +821,38 @@ fn search_listen_time(obs: &[&str]) {
                 "reply_bytes_received_by_B": got.len(), "listen_result": format!("{:?}", r), "expected": "B is served before listen() returns Ok"}));
         }
     }
+    // (c) idle timeout AND stop flag: the flag is set shortly before the idle deadline, nothing in service: listen() must return Ok(()) ("stops accepting shortly after the flag is set and
+    //     returns successfully"), never the idle Timeout error well after the flag was set.  Timing based: several offsets, and a finding must show in TWO separate attempts.
+    {
+        let mut hits = Vec::new();
+        for (k, off) in [905u64, 925, 945, 965, 935, 955].iter().enumerate() {
+            explored += 1;
+            let dir = std::env::temp_dir().join(format!("vx-replay-stoprace-{}-{}", std::process::id(), k));
+            let _ = std::fs::create_dir_all(&dir);
+            let addr = format!("unix:{}", dir.join("sock").display());
+            let stop = Arc::new(std::sync::atomic::AtomicBool::new(false));
+            let stop2 = stop.clone();
+            let t = std::thread::spawn(move || {
+                let t_start = std::time::Instant::now();
+                let r = varlink::listen(service(), &addr, &varlink::ListenConfig { initial_worker_threads: 1, max_worker_threads: 2, idle_timeout: 1, stop_listening: Some(stop2) });
+                (r.map_err(|e| format!("{:?}", e.kind())), t_start, std::time::Instant::now())
+            });
+            std::thread::sleep(Duration::from_millis(*off));
+            let t_flag = std::time::Instant::now();
+            stop.store(true, Ordering::SeqCst);
+            let (r, _t_start, t_ret) = t.join().unwrap_or((Err("PANIC".into()), t_flag, t_flag));
+            let _ = std::fs::remove_dir_all(&dir);
+            if t_ret > t_flag {
+                let after = t_ret.duration_since(t_flag).as_millis() as u64;
+                if r == Err("Timeout".to_string()) && after >= 30 { hits.push(json!({"flag_set_at_ms": off, "listen_result": "Err(Timeout)", "returned_ms_after_flag": after})); }
+            }
+            if hits.len() >= 2 { break; }
+        }
+        if hits.len() >= 2 && found.is_none() {
+            found = Some(json!({"idle_timeout_s": 1, "stop_flag": "set shortly before the idle deadline, no connection", "attempts_that_failed": hits,
+                "expected": "Ok(()) from the poll that follows the flag (the flag is looked at before the idle countdown gives up)"}));
+        }
+    }
     for ob in obs { emit(ob, found.is_some(), explored, found.clone().unwrap_or(Value::Null)); }
 }
 
@@ -744,15 +880,34 @@ fn search_unlink(ob: &str) {
 
 // C03.info: every registered interface is listed exactly once, also when the same name is registered twice
 fn search_info_dups(ob: &str) {
-    let svc = VarlinkService::new("v", "p", "1", "u", vec![Box::new(Scripted), Box::new(Scripted)]);
-    let input = render(&alphabet()[0]);
-    let mut out = Vec::new();
-    let _ = svc.handle(&mut &input[..], &mut out, None);
-    let (replies, _) = split_replies(&out);
-    let ifs: Vec<String> = replies.get(0).and_then(|r| r.get("parameters")).and_then(|p| p.get("interfaces")).and_then(|i| i.as_array())
-        .map(|a| a.iter().filter_map(|x| x.as_str().map(|s| s.to_string())).collect()).unwrap_or_default();
-    let ok = ifs == vec!["org.varlink.service".to_string(), "org.example.t".to_string()];
-    emit(ob, !ok, 1, if ok { Value::Null } else { json!({"registered": ["org.example.t", "org.example.t"], "GetInfo.interfaces": ifs, "expected": ["org.varlink.service", "org.example.t"]}) });
+    struct Named(&'static str);
+    impl Interface for Named {
+        fn get_description(&self) -> &'static str { "interface org.example.x\nmethod A() -> ()\n" }
+        fn get_name(&self) -> &'static str { self.0 }
+        fn call_upgraded(&self, _call: &mut Call, _b: &mut dyn BufRead) -> varlink::Result<Vec<u8>> { Ok(Vec::new()) }
+        fn call(&self, call: &mut Call) -> varlink::Result<()> { call.reply_struct(varlink::Reply::parameters(None)) }
+    }
+    let configs: Vec<Vec<&'static str>> = vec![vec!["org.example.t", "org.example.t"], vec!["org.example.a", "org.example.b", "org.example.a"], vec!["org.example.a", "org.example.a", "org.example.b"],
+        vec!["org.example.b", "org.example.a", "org.example.a", "org.example.b"], vec!["org.example.a", "org.example.b", "org.example.c", "org.example.a", "org.example.b"], vec![]];
+    let mut found = None;
+    let mut explored = 0;
+    for cfg in configs {
+        explored += 1;
+        let svc = VarlinkService::new("v", "p", "1", "u", cfg.iter().map(|n| Box::new(Named(n)) as Box<dyn Interface + Send + Sync>).collect());
+        let input = render(&alphabet()[0]);
+        let mut out = Vec::new();
+        let _ = svc.handle(&mut &input[..], &mut out, None);
+        let (replies, _) = split_replies(&out);
+        let ifs: Vec<String> = replies.get(0).and_then(|r| r.get("parameters")).and_then(|p| p.get("interfaces")).and_then(|i| i.as_array())
+            .map(|a| a.iter().filter_map(|x| x.as_str().map(|s| s.to_string())).collect()).unwrap_or_default();
+        let mut want: Vec<String> = cfg.iter().map(|s| s.to_string()).collect();
+        want.sort(); want.dedup();
+        let mut rest: Vec<String> = ifs.iter().skip(1).cloned().collect();
+        rest.sort();
+        let ok = ifs.first().map(|s| s.as_str()) == Some("org.varlink.service") && rest == want;
+        if !ok && found.is_none() { found = Some(json!({"registered": cfg, "GetInfo.interfaces": ifs, "expected": "org.varlink.service first, then every registered name exactly once"})); }
+    }
+    emit(ob, found.is_some(), explored, found.unwrap_or(Value::Null));
 }
 
 // C16 (address-form slice): unknown schemes are rejected by client and server with InvalidAddress; `;` parameters are cut off
@@ -781,6 +936,27 @@ fn search_address(obs: &[&str]) {
         }
         drop(l);
         let _ = std::fs::remove_dir_all(&dir);
+    }
+    // every supported tcp spelling reaches a listening socket: IPv4 literal, bracketed IPv6 literal, host name; client and server side (Listener::new binds the same spellings)
+    for (bind_to, spellings) in [("127.0.0.1:0", vec!["127.0.0.1", "localhost"]), ("[::1]:0", vec!["[::1]"])] {
+        let l = match std::net::TcpListener::bind(bind_to) { Ok(l) => l, Err(_) => continue };   // no such address family in this sandbox: nothing to check
+        let port = l.local_addr().map(|a| a.port()).unwrap_or(0);
+        let _ = l.set_nonblocking(true);
+        for host in spellings {
+            explored += 1;
+            let addr = format!("tcp:{}:{}", host, port);
+            let c = varlink::Connection::with_address(&addr).map(|_| ()).map_err(|e| format!("{:?}", e.kind()));
+            // `localhost` may resolve to the other family first: only a refusal of a literal is a finding
+            if c.is_err() && host != "localhost" {
+                found.entry("scheme").or_insert(json!({"address": addr, "client": format!("{:?}", c), "expected": "Ok: a tcp listener is bound to that address"}));
+            }
+        }
+    }
+    for spelling in ["tcp:127.0.0.1:0", "tcp:[::1]:0"] {
+        if std::net::TcpListener::bind(&spelling[4..]).is_err() { continue; }
+        explored += 1;
+        let l = varlink::Listener::new(spelling).map(|_| ()).map_err(|e| format!("{:?}", e.kind()));
+        if l.is_err() { found.entry("scheme").or_insert(json!({"address": spelling, "server": format!("{:?}", l), "expected": "Ok: std binds that address"})); }
     }
     for ob in obs {
         let class = if *ob == "C16.params" { "params" } else if *ob == "C16.scheme" { "scheme" } else { "none" };
@@ -838,7 +1014,7 @@ fn search_wire_roundtrip(obs: &[&str]) {
     let mut found = None;
     let mut explored = 0;
     let flags = [None, Some(true), Some(false)];
-    for more in flags { for oneway in flags { for upgrade in flags { for params in [None, Some(json!({"a": [1, "x", null]}))] {
+    for more in flags { for oneway in flags { for upgrade in flags { for params in [None, Some(json!({"a": [1, "x", null]})), Some(json!({})), Some(json!([])), Some(json!({"n": {}}))] {
         explored += 1;
         let mut r = varlink::Request::create("a.b.C", params.clone());
         r.more = more; r.oneway = oneway; r.upgrade = upgrade;
@@ -852,16 +1028,37 @@ fn search_wire_roundtrip(obs: &[&str]) {
             found = Some(json!({"request": format!("{:?}", r), "serialized": text, "from_str_equal": a.as_ref() == Some(&r), "from_value_equal": c.as_ref() == Some(&r), "unset_members_omitted_and_set_members_present": omitted_ok}));
         }
     }}}}
-    for cont in flags { for err in [None, Some("org.example.E")] {
+    for cont in flags { for err in [None, Some("org.example.E")] { for params in [Some(json!({"k": "v"})), None, Some(json!({})), Some(json!([])), Some(json!({"n": {}})), Some(json!("text")), Some(json!(0))] {
         explored += 1;
-        let r = varlink::Reply { continues: cont, error: err.map(|e| e.into()), parameters: Some(json!({"k": "v"})) };
+        let r = varlink::Reply { continues: cont, error: err.map(|e| e.into()), parameters: params.clone() };
         let text = serde_json::to_string(&r).unwrap();
         let a: Option<varlink::Reply> = serde_json::from_str(&text).ok();
+        let b: Option<varlink::Reply> = serde_json::from_slice(text.as_bytes()).ok();
         let c: Option<varlink::Reply> = serde_json::to_value(&r).ok().and_then(|v| serde_json::from_value(v).ok());
-        if !(a.as_ref() == Some(&r) && c.as_ref() == Some(&r)) && found.is_none() {
-            found = Some(json!({"reply": format!("{:?}", r), "serialized": text, "from_str_equal": a.as_ref() == Some(&r), "from_value_equal": c.as_ref() == Some(&r)}));
+        if !(a.as_ref() == Some(&r) && b.as_ref() == Some(&r) && c.as_ref() == Some(&r)) && found.is_none() {
+            found = Some(json!({"reply": format!("{:?}", r), "serialized": text, "from_str_equal": a.as_ref() == Some(&r), "from_slice_equal": b.as_ref() == Some(&r), "from_value_equal": c.as_ref() == Some(&r)}));
         }
-    }}
+    }}}
+    // every JSON object that is a valid request / reply deserializes to a value that serializes back to an equivalent object (members with value null count as absent)
+    let strip_null = |v: &Value| -> Value { match v { Value::Object(o) => Value::Object(o.iter().filter(|(_, x)| !x.is_null()).map(|(k, x)| (k.clone(), x.clone())).collect()), x => x.clone() } };
+    for obj in [json!({"parameters": {}}), json!({"continues": false}), json!({"continues": true, "parameters": {"a": 1}}), json!({"error": "a.b.E", "parameters": {}}), json!({"error": "a.b.E"}),
+                json!({"parameters": null}), json!({}), json!({"continues": false, "parameters": {"x": {}}})] {
+        explored += 1;
+        let back = serde_json::from_value::<varlink::Reply>(obj.clone()).ok().and_then(|r| serde_json::to_value(&r).ok());
+        let back2 = serde_json::from_str::<varlink::Reply>(&obj.to_string()).ok().and_then(|r| serde_json::to_value(&r).ok());
+        if (back.as_ref().map(&strip_null) != Some(strip_null(&obj)) || back2.as_ref().map(&strip_null) != Some(strip_null(&obj))) && found.is_none() {
+            found = Some(json!({"wire_reply": obj, "after_deserialize_serialize": back, "via_text": back2}));
+        }
+    }
+    for obj in [json!({"method": "a.b.C"}), json!({"method": "a.b.C", "parameters": {}}), json!({"method": "a.b.C", "more": false}), json!({"method": "a.b.C", "oneway": false, "upgrade": false, "more": true}),
+                json!({"method": "a.b.C", "oneway": true, "parameters": {"x": []}}), json!({"method": "", "parameters": null})] {
+        explored += 1;
+        let back = serde_json::from_value::<varlink::Request>(obj.clone()).ok().and_then(|r| serde_json::to_value(&r).ok());
+        let back2 = serde_json::from_str::<varlink::Request>(&obj.to_string()).ok().and_then(|r| serde_json::to_value(&r).ok());
+        if (back.as_ref().map(&strip_null) != Some(strip_null(&obj)) || back2.as_ref().map(&strip_null) != Some(strip_null(&obj))) && found.is_none() {
+            found = Some(json!({"wire_request": obj, "after_deserialize_serialize": back, "via_text": back2}));
+        }
+    }
     // ServiceInfo / GetInterfaceDescriptionReply, including the empty interface list
     for ifs in [vec![], vec!["org.varlink.service"], vec!["org.varlink.service", "a.b"]] {
         explored += 1;
@@ -992,6 +1189,30 @@ fn search_cli(obs: &[&str]) {
         ("split", vec!["call".into(), "-m".into(), "org.example.more.Stream".into()], true, vec![json!({"n": 1}), json!({"n": 2}), json!({"n": 3})],
             vec![("resolver", "org.varlink.resolver.Resolve {\"interface\":\"org.example.more\"}".into()), ("service", "org.example.more.Stream ".into())]),
     ];
+    // "every supported address form works": the same call over tcp, IPv4 literal and bracketed IPv6 literal (the last slash still separates address and method)
+    let mut cases = cases;
+    for (bind_to, host, tag) in [("127.0.0.1:0", "127.0.0.1", "tcp4"), ("[::1]:0", "[::1]", "tcp6")] {
+        let l = match std::net::TcpListener::bind(bind_to) { Ok(l) => l, Err(_) => continue };
+        let port = l.local_addr().map(|a| a.port()).unwrap_or(0);
+        let seen2 = seen.clone();
+        std::thread::spawn(move || {
+            for st in l.incoming() {
+                let st = match st { Ok(s) => s, Err(_) => return };
+                let mut w = match st.try_clone() { Ok(w) => w, Err(_) => continue };
+                let mut r = BufReader::new(st);
+                loop {
+                    let mut buf = Vec::new();
+                    if r.read_until(0, &mut buf).unwrap_or(0) == 0 { break; }
+                    buf.pop();
+                    let req: Value = match serde_json::from_slice(&buf) { Ok(v) => v, Err(_) => break };
+                    seen2.lock().unwrap().push((tag.to_string(), format!("{} {}", req["method"].as_str().unwrap_or(""), req["parameters"])));
+                    let mut out = serde_json::to_vec(&json!({"parameters": {"pong": 1}})).unwrap(); out.push(0);
+                    if w.write_all(&out).is_err() { break; }
+                }
+            }
+        });
+        cases.push(("split", vec!["call".into(), format!("tcp:{}:{}/org.example.Ping", host, port)], true, vec![json!({"pong": 1})], vec![(tag, "org.example.Ping ".into())]));
+    }
     for (class, args, want_ok, want_out, want_seen) in cases {
         explored += 1;
         seen.lock().unwrap().clear();
@@ -1972,10 +2193,13 @@ fn main() {
     if !seq_obs.is_empty() { search_sequences(&seq_obs); }
     let cut_obs: Vec<&str> = ["C02.conserve", "C02.tail"].iter().cloned().filter(|o| m(o)).collect();
     if !cut_obs.is_empty() { search_cuts(&cut_obs); }
+    let large_obs: Vec<&str> = ["C01.served", "C02.conserve", "C06.no-panic"].iter().cloned().filter(|o| m(o)).collect();
+    if !large_obs.is_empty() { search_large(&large_obs); }
     if m("C05.gate") { search_gate("C05.gate"); }
     if m("C06.no-reply") { search_malformed("C06.no-reply"); }
     if m("C02.upgrade") { search_upgrade("C02.upgrade"); }
     if m("C02.listen-forward") { search_listen_forward("C02.listen-forward"); }
+    if m("C02.no-wait") { search_no_wait("C02.no-wait"); }
     if m("C17.set-de") { search_stringset("C17.set-de"); }
     if m("C17.set-ser") { search_stringset("C17.set-ser"); }
     if m("C14.bound") { search_pool_bound("C14.bound"); }
